@@ -37,14 +37,25 @@ fn run_suite<C: Suite>(ctx: &mut Ctx) {
         pool.push(("random".into(), gen::random_scalar(&mut erng)));
     }
     // all proofs (cheap) - every worker computes the pool, pairs are sharded
-    let proofs: Vec<(Vec<u8>, Vec<u8>)> = pool
-        .iter()
-        .map(|(_, k)| {
-            let sk = sk_from_rs::<C>(k);
-            let pop = sk.proof_of_possession().expect("pop");
-            (pk_bytes(&sk.public_key()), Vec::from(&pop))
-        })
-        .collect();
+    // a key for which no proof is produced is a violation in itself ("for every non-zero secret
+    // key ..."); it is reported once by the worker that owns group `base` and leaves the pool
+    let mut proofs: Vec<(Vec<u8>, Vec<u8>)> = Vec::new();
+    let mut kept: Vec<(String, RS)> = Vec::new();
+    for (kname, k) in pool.iter() {
+        let sk = sk_from_rs::<C>(k);
+        match sk.proof_of_possession() {
+            Ok(pop) => {
+                proofs.push((pk_bytes(&sk.public_key()), Vec::from(&pop)));
+                kept.push((kname.clone(), *k));
+            }
+            Err(e) => {
+                if ctx.mine(base) {
+                    ctx.violation(&format!("C09/prove-failed/{n}"), json!({"what":"proof_of_possession returns an error for a non-zero secret key","sk":hex::encode(k.to_be_bytes()),"sk_class":kname,"error":e.to_string()}));
+                }
+            }
+        }
+    }
+    let pool = kept;
     for c in ["own", "other-key", "perturbed", "reencoded", "history"] {
         ctx.require(&format!("{n}/{c}"));
     }
